@@ -13,7 +13,7 @@ from pathlib import Path
 
 from .tlc import ROOT, WORK, MachineryError, TLCResult, workdir
 
-EVIDENCE = ROOT / "evidence"
+EVIDENCE = Path(os.environ["VERIF_EVIDENCE_DIR"]) if os.environ.get("VERIF_EVIDENCE_DIR") else ROOT / "evidence"
 FINDINGS_FILE = ROOT / "known_findings.jsonl"
 REPO = Path(os.environ.get("VERIF_REPO", "/repo"))
 
@@ -120,7 +120,7 @@ class Ctx:
         rc = 0
         for k, v in self.known_hits.items():
             print(f"KNOWN-FINDING: property={self.prop} {k} {v['what']} (x{v['count']})")
-        rdir = workdir("replay")
+        rdir = workdir("replay" if not os.environ.get("VERIF_EVIDENCE_DIR") else "replay-scratch")
         (rdir / f"{self.prop}-all.json").write_text(json.dumps(self.violations, default=str))
         for i, v in enumerate(self.violations):
             if i >= self.max_viol_lines:
